@@ -91,6 +91,20 @@ def _malformed(entry: serializers.Entry, valid: bytes, rng: random.Random) -> by
     return None
 
 
+def _on_the_wire(entry: serializers.Entry, bad: bytes) -> bytes | None:
+    """The malformed datagram as the raw peer sends it over loopback.  An empty one is replaced (an empty datagram has scenarios of its own)
+    by a short one that the one-shot parser of this entry refuses as well - b"\x00" is a valid packet for a length-prefixed format -, or dropped."""
+    if bad:
+        return bad
+    proto = entry.datagram_protocol()
+    for cand in (b"\x00", b"\xff", b"\xff\xfe\xfd"):
+        try:
+            proto.build_packet_from_datagram(cand)
+        except Exception:  # noqa: BLE001
+            return cand
+    return None
+
+
 def _script(entry: serializers.Entry, rng: random.Random) -> tuple[list[Any], list[tuple[str, Any]]]:
     packets = [entry.gen(rng) for _ in range(rng.randint(1, 4))]
     proto = entry.datagram_protocol()
@@ -238,8 +252,11 @@ def scenario_udp(entry: serializers.Entry, seed: int) -> dict[str, Any]:
                 # echo it back so that the client also receives it
                 b.send(proto.make_datagram(packets[arg]))
             else:
+                wire = _on_the_wire(entry, arg)
+                if wire is None:
+                    continue
                 events.append({"ev": "inject"})
-                b.send(arg if arg else b"\x00")
+                b.send(wire)
             try:
                 if use_iter:
                     # one iterator kept across parse errors: an error reported by it must not end it
@@ -334,8 +351,11 @@ async def _scenario_async_udp(entry: serializers.Entry, seed: int) -> dict[str, 
                 events.append({"ev": "send", "id": arg + 1, "n": len(got), "ok": _check_send(entry, packets[arg], got), "kind": "" if proto.make_datagram(packets[arg]) else "empty"})
                 b.send(proto.make_datagram(packets[arg]))  # echo
             else:
+                wire = _on_the_wire(entry, arg)
+                if wire is None:
+                    continue
                 events.append({"ev": "inject"})
-                b.send(arg if arg else b"\x00")
+                b.send(wire)
             pending += 1
             for _ in range(3):
                 await asyncio.sleep(0)  # the event loop queues the datagram
